@@ -246,8 +246,10 @@ def _r1(ctx):
         if b_[0] == "call" and b_[1][0] == "global" and b_[1][1] in ("reversed", "sorted", "filter", "list", "tuple", "set", "frozenset", "enumerate", "zip", "iter"):
             return any(opaque(x) for x in b_[2])          # a visible re-ordering / selection / copy of its arguments
         return True
-    b = match(("call", ("global", "enumerate"), (V("z"),), ()), it)
-    srcs = [x for a in seqs_of(b["z"]) for x in sources(a)] if b else []
+    # (the counter may be attached to the zipped lists -- enumerate(zip(guards, rates)) -- or to one of them -- zip(guards, [.. for i, r in
+    # enumerate(rates)]): seqs_of walks through both)
+    b = it[0] == "call" and it[1] in (("global", "enumerate"), ("global", "zip")) and bool(it[2])
+    srcs = [x for a in seqs_of(it) for x in sources(a)] if b else []
     # a list built one entry per reaction whose entries are then overwritten in place: somebody else writes the guard / rate text
     for b_, _ in srcs:
         if b_[0] == "acc":
